@@ -25,10 +25,22 @@ type BCase struct {
 
 // BOutcome is what the batch runner hands to the per-property oracle.
 type BOutcome struct {
-	Case     *BCase
-	Build    BuildResult
-	Sessions [][]ProbeResult // per session: index 0 = post-construction counters
-	NoBuild  string          // non-empty: the generated package did not compile (compiler output)
+	Case      *BCase
+	Build     BuildResult
+	Sessions  [][]ProbeResult // per session: index 0 = post-construction counters
+	NoBuild   string          // non-empty: the generated package did not compile (compiler output)
+	InitPanic string          // non-empty: package initialisation panicked
+}
+
+var reInitPanic = regexp.MustCompile(`probe/(g\d+)\.init`)
+
+func firstLine(s string) string {
+	for _, l := range strings.Split(s, "\n") {
+		if strings.HasPrefix(l, "panic:") {
+			return l
+		}
+	}
+	return strings.SplitN(s, "\n", 2)[0]
 }
 
 var reGenPkgErr = regexp.MustCompile(`(?m)^(?:\./)?(g\d+)/`)
@@ -64,7 +76,7 @@ func (w *W) RunBehaviour(cases []*BCase) ([]*BOutcome, error) {
 		idx[name] = i
 		pkgs = append(pkgs, GenPkg{Name: name, Source: br.Output, Clause: *bc.Cfg.Meta.Pkg, Ctor: ctor, Local: bc.Local})
 	}
-	for attempt := 0; attempt < 4; attempt++ {
+	for attempt := 0; attempt < 12; attempt++ {
 		var sessions []ProbeSession
 		var owner [][2]int
 		for _, g := range pkgs {
@@ -100,6 +112,22 @@ func (w *W) RunBehaviour(cases []*BCase) ([]*BOutcome, error) {
 			pkgs = keep
 			continue
 		}
+		if pe, ok := err.(*ProbeError); ok && pe.Stage == "run" && len(res) == 0 {
+			if m := reInitPanic.FindStringSubmatch(pe.Output); m != nil {
+				var keep []GenPkg
+				for _, g := range pkgs {
+					if g.Name == m[1] {
+						outs[idx[g.Name]].InitPanic = firstLine(pe.Output)
+					} else {
+						keep = append(keep, g)
+					}
+				}
+				if len(keep) < len(pkgs) {
+					pkgs = keep
+					continue
+				}
+			}
+		}
 		// distribute whatever sessions completed
 		for k, r := range res {
 			o := outs[owner[k][0]]
@@ -118,6 +146,7 @@ type Expect struct {
 	Text   string   // canonical text (value)
 	Err    []string // expected error substrings
 	IsErr  bool
+	Panics bool // the error surfaces as a panic (Must-getters)
 	Unspec string
 }
 
@@ -153,6 +182,47 @@ func ModelSession(m *Model, ops []ProbeOp) []Expect {
 			sort.Strings(ks)
 			out[i] = Expect{Text: "COUNTERS{" + strings.Join(ks, " ") + "}"}
 			continue
+		case "getter", "getterctx", "mustgetter", "mustgetterctx":
+			base := strings.TrimSuffix(strings.TrimPrefix(op.Name, "Must"), "InContext")
+			if !strings.HasPrefix(op.Op, "must") {
+				base = strings.TrimSuffix(op.Name, "InContext")
+			}
+			var svc *Service
+			for k := range m.Cfg.Services {
+				if g := m.Cfg.Services[k].Getter; g != nil && *g == base {
+					svc = &m.Cfg.Services[k]
+				}
+			}
+			if svc == nil {
+				out[i] = Expect{Unspec: "no service with getter " + base}
+				continue
+			}
+			if strings.HasSuffix(op.Op, "ctx") {
+				v, err = m.GetInContext(op.Ctx, svc.Name)
+			} else {
+				v, err = m.Get(svc.Name)
+			}
+			static := "interface {}"
+			if svc.Type != nil {
+				r, ok := ParseType(*svc.Type)
+				if !ok {
+					out[i] = Expect{Unspec: "malformed type"}
+					continue
+				}
+				static = r.Ptr + m.pkgID(r) + "." + r.Name
+				if !r.HasImport || r.Import == "" {
+					static = r.Ptr + "probe/" + strings.TrimPrefix(m.LocalID, "./") + "." + r.Name
+				}
+			}
+			switch e := err.(type) {
+			case nil:
+				out[i] = Expect{Text: "<" + static + ">" + canon.Render(DescribeModel(v))}
+			case *MErr:
+				out[i] = Expect{IsErr: true, Err: e.Contains, Panics: strings.HasPrefix(op.Op, "must")}
+			case *MUnspec:
+				out[i] = Expect{Unspec: e.Why}
+			}
+			continue
 		default:
 			out[i] = Expect{Unspec: "op not modelled: " + op.Op}
 			continue
@@ -183,6 +253,18 @@ func CompareSession(exp []Expect, res []ProbeResult) (bad int, msg string, compa
 			return -1, "", compared, true
 		}
 		obs := canon.RenderResult(r)
+		if e.IsErr && e.Panics {
+			if r.Panic == "" {
+				return i, fmt.Sprintf("expected a panic containing %q, observed %s", e.Err, obs), compared, false
+			}
+			for _, s := range e.Err {
+				if !strings.Contains(r.Panic, s) {
+					return i, fmt.Sprintf("expected a panic containing %q, observed %s", e.Err, obs), compared, false
+				}
+			}
+			compared++
+			continue
+		}
 		if e.IsErr {
 			if r.Err == "" || r.Panic != "" {
 				return i, fmt.Sprintf("expected an error containing %q, observed %s", e.Err, obs), compared, false
@@ -193,7 +275,7 @@ func CompareSession(exp []Expect, res []ProbeResult) (bad int, msg string, compa
 				}
 			}
 			// an error must never come with another object
-			if r.V != nil && str(r.V["t"]) != "nil" {
+			if r.V != nil && carriesObject(r.V) {
 				return i, "error returned together with a non-nil value: " + obs + " / " + canon.Render(r.V), compared, false
 			}
 			compared++
@@ -205,4 +287,23 @@ func CompareSession(exp []Expect, res []ProbeResult) (bad int, msg string, compa
 		compared++
 	}
 	return -1, "", compared, false
+}
+
+// carriesObject: the value returned next to an error is something other than a zero value.
+func carriesObject(v map[string]any) bool {
+	switch str(v["t"]) {
+	case "wrap":
+		return true
+	case "obj":
+		_, hasID := v["id"]
+		return hasID
+	case "slice":
+		items, _ := v["items"].([]any)
+		return len(items) > 0
+	case "string":
+		return str(v["v"]) != ""
+	case "container", "rootcontainer":
+		return true
+	}
+	return false
 }
